@@ -1638,9 +1638,13 @@ func init() {
 		ID: "C16",
 		Rule: "multi-file layouts built by a decision-driven builder (root at 5 relative/absolute locations; every component kind; positions in components, paths, " +
 			"whole-file path items, callbacks; reference styles: inline, whole-file, element into definitions documents, component of the same document, back into the root; " +
-			"re-use of existing targets; three spellings of the same relative path; cycles): ALL decision tapes up to a fixed length (exhaustive), hand-written witness layouts, " +
-			"then a seeded random stream of deeper layouts. Each is loaded with external refs allowed, internalised, marshalled, reloaded with external refs disallowed and compared. " +
-			"Non-trivial = the model reports at least one branch (an external reference added, an existing name re-used, root-component match, parent-is-external propagation, visited-set hit, …).",
+			"re-use of existing targets; three spellings of the same relative path; cycles): ALL decision tapes up to a fixed length (exhaustive); a FOCUSED family per feature " +
+			"(examples of parameters / headers, header content, encoding headers, discriminator mapping over oneOf, null media type / encoding entries, path item chains '#/paths/..', " +
+			"path item by element reference into another document, callback leading back to its path item, whole-kind root components for links / examples / securitySchemes / headers / responses): " +
+			"all decision tapes of the reference placed at that position; hand-written witness layouts; then a seeded random stream of deeper layouts in which every feature is switched on now and then. " +
+			"Each is loaded with external refs allowed, internalised, checked for an infinite tree, marshalled, reloaded with external refs disallowed and compared. " +
+			"Non-trivial = the model reports at least one branch (an external reference added, an existing name re-used, root-component match, parent-is-external propagation, visited-set hit, …); " +
+			"the has.* / root.* branches give the distribution of layout features.",
 		Exhaustive: true,
 		Gen:        genC16,
 		Run: func(c hx.Case) any {
@@ -1658,6 +1662,8 @@ func init() {
 			"the abstraction of the loaded document (ref texts, RefPath, pointer sharing) that the model of InternalizeRefs runs on is extracted from the real loader when a case is generated and re-derived and compared on every evaluation; the loader itself is C02's subject",
 			"resolved content is compared as an unfolding 8 ref-or-value levels deep; verdicts of request/response validation on 12 fixed bodies × parameter values per operation",
 			"root document paths are clean (no '.', '..' or doubled slashes), as produced by path.Join",
+			"resolved content: discriminator mapping TEXTS are not compared, what each mapping key selects among the oneOf alternatives is; a `$ref` key is the only kind of reference looked for in the serialised document (Link.operationRef and Example.externalValue are not references the loader follows)",
+			"the kernel-checked witness / regression theorems are about the heaps of lean/KinModel/Lemmas/C16Heaps.lean; the driver reports for each tagged corpus case whether the heap extracted from the real loader still is that heap",
 		},
 	})
 }
@@ -1750,7 +1756,7 @@ func genC16(ctx *hx.Ctx, emit func(hx.Case)) {
 	}
 	n := 1500
 	if ctx.Thorough() {
-		n = 20000
+		n = 50000
 	}
 	for i := 0; i < n; i++ {
 		b := &c16B{r: ctx.Rng}
